@@ -1,4 +1,5 @@
 """C13 — prompting is demand-exact; written-back answers make the run repeatable."""
+import os
 import random
 import re
 
@@ -89,7 +90,10 @@ def run(tier, seed):
                 for opt in cfg.options(sec):
                     final_inputs['%s.%s' % (sec, opt)] = cfg.get(sec, opt, raw=True)
             asked2 = []
-            res2 = scenarios.run_scenario(Hr, year, forms, sseed, prof, initial=final_inputs,
+            # the written-back file itself: InputStore.write, then habutax's own reader on the next run
+            wb = os.path.join(ck.build, 'writeback.ini')
+            res['store'].write(wb)
+            res2 = scenarios.run_scenario(Hr, year, forms, sseed, prof, initial_file=wb,
                                           on_prompt=lambda m, nb, st, r: asked2.append(m.name()))
             if asked2:
                 probs.append('re-run on the written-back inputs prompted again for %s' % asked2[:3])
